@@ -104,8 +104,10 @@ func (ctx Ctx) coqTypeOfType(n ast.Node, t types.Type) coq.Type {
 			return coq.TypeIdent("disk.Disk")
 		}
 		if info, ok := ctx.getStructInfo(t); ok {
+			ctx.dep.addDep(info.name)
 			return coq.StructName(info.name)
 		}
+		ctx.dep.addDep(ctx.qualifiedName(t.Obj()))
 		return coq.TypeIdent(ctx.qualifiedName(t.Obj()))
 	case *types.Slice:
 		return coq.SliceType{Value: ctx.coqTypeOfType(n, t.Elem())}
